@@ -213,7 +213,8 @@ def num_spellings(k):
     out = []
     if v.denominator == 1:
         n = v.numerator
-        out = ["%d" % n, "%d.0" % n, "%d." % n, "%de0" % n, "(%d/2)" % (2 * n), ".%de1" % n if n < 10 else "%d.00" % n, "(%d*0.5)" % (2 * n), "0.%dE+1" % n if n < 10 else "%d" % n]
+        out = ["%d" % n, "%d.0" % n, "%d." % n, "%de0" % n, "(%d/2)" % (2 * n), ".%de1" % n if n < 10 else "%d.00" % n, "(%d*0.5)" % (2 * n), "0.%dE+1" % n if n < 10 else "%d" % n,
+               "(%d/2/2)" % (4 * n), "(2*%d/2)" % n]        # chained constant arithmetic
     else:
         dec = ("%s" % float(v))
         out = [dec, dec.lstrip("0") if dec.startswith("0.") else dec, "(%d/%d)" % (v.numerator, v.denominator), "%de-2" % int(v * 100), dec + "0",
